@@ -1549,6 +1549,10 @@ func (b *bounds) sliceMore(f *cfgx.Func, x *ast.SliceExpr) (bool, string) {
 		if n, why := b.minLen(x.X); n >= need {
 			return true, why
 		}
+		// s[:1] / s[1:] of a string that is never empty
+		if bt, ok := b.info.TypeOf(x.X).Underlying().(*types.Basic); ok && bt.Info()&types.IsString != 0 && need == 1 && b.nonEmptyString(x.X, 0) {
+			return true, "the sliced string is never empty (constants, go/types names and texts, concatenations and results of functions that return such, at every call site)"
+		}
 		// "[]" + element: the text of a variadic parameter's type, only reached when the Variadic flag is set
 		if need == 2 && x.High == nil {
 			src := ast.Unparen(x.X)
@@ -1897,4 +1901,274 @@ func staticCallsOf(prog *load.Program, fn *types.Func) []staticCall {
 		})
 	}
 	return callIndex[fn.Origin()]
+}
+
+// nonEmptyString: the string expression is never "" — constants, concatenations with a non-empty part,
+// names and texts handed out by go/types (an object's Name, a type's String), case mappings and
+// in-range slices of non-empty strings, results of moq functions all of whose returns are non-empty,
+// locals all of whose assignments are, and parameters (of unexported functions and bound function
+// literals) that every call fills with a non-empty string. Claims in progress count as true: the
+// fact holds by induction over the call depth.
+func (b *bounds) nonEmptyString(e ast.Expr, depth int) bool {
+	if depth > 8 {
+		return false
+	}
+	e = ast.Unparen(e)
+	if tv, ok := b.info.Types[e]; ok && tv.Value != nil && tv.Value.Kind() == constant.String {
+		return constant.StringVal(tv.Value) != ""
+	}
+	switch x := e.(type) {
+	case *ast.BinaryExpr:
+		if x.Op == token.ADD {
+			return b.nonEmptyString(x.X, depth+1) || b.nonEmptyString(x.Y, depth+1)
+		}
+	case *ast.SliceExpr:
+		// s[:k] / s[k:] of a string: when it does not panic, s[:k] with k >= 1 is non-empty
+		if x.Low == nil && x.High != nil {
+			if c, ok := b.constInt(x.High); ok && c >= 1 {
+				return true
+			}
+		}
+		return false
+	case *ast.CallExpr:
+		if fn, ok := typeutil.Callee(b.info, x).(*types.Func); ok && fn.Pkg() != nil {
+			switch {
+			case fn.Pkg().Path() == "go/types" && (fn.Name() == "Name" || fn.Name() == "String"):
+				return true // go/types never hands out empty names or type texts for declared objects and types
+			case fn.Pkg().Path() == "strings" && (fn.Name() == "ToLower" || fn.Name() == "ToUpper" || fn.Name() == "Title") && len(x.Args) == 1:
+				return b.nonEmptyString(x.Args[0], depth+1)
+			case b.prog.IsMoqPkg(fn.Pkg()):
+				return nonEmptyResult(b.prog, fn.Origin(), depth+1)
+			}
+		}
+		// a call of a local function literal
+		if id, ok := ast.Unparen(x.Fun).(*ast.Ident); ok {
+			if d, ok := b.singleDef(id); ok {
+				if lit, ok := ast.Unparen(d).(*ast.FuncLit); ok {
+					return b.nonEmptyReturns(lit.Body, depth+1)
+				}
+			}
+		}
+	case *ast.Ident:
+		v, _ := b.info.ObjectOf(x).(*types.Var)
+		if v == nil {
+			return false
+		}
+		if as := b.assigns[v]; len(as) > 0 {
+			for i, a := range as {
+				if a == nil {
+					// x += … only makes a string longer; anything else (a range or tuple binding) is unknown
+					if st, ok := b.anodes[v][i].(*ast.AssignStmt); ok && st.Tok == token.ADD_ASSIGN {
+						continue
+					}
+					// name, ok := table[k] in the header of `if …; ok {` with a table of non-empty constants
+					if st, ok := b.anodes[v][i].(*ast.AssignStmt); ok && b.okGuardedTableLookup(st, x) {
+						continue
+					}
+					return false
+				}
+				if !b.nonEmptyString(a, depth+1) {
+					return false
+				}
+			}
+			return true
+		}
+		// parameter of the enclosing function literal or unexported function
+		return b.paramNonEmpty(v, depth+1)
+	}
+	return false
+}
+
+func (b *bounds) nonEmptyReturns(body *ast.BlockStmt, depth int) bool {
+	okAll, n := true, 0
+	ast.Inspect(body, func(x ast.Node) bool {
+		if _, isLit := x.(*ast.FuncLit); isLit {
+			return false
+		}
+		if rs, ok := x.(*ast.ReturnStmt); ok {
+			n++
+			if len(rs.Results) != 1 || !b.nonEmptyString(rs.Results[0], depth) {
+				okAll = false
+			}
+		}
+		return true
+	})
+	return okAll && n > 0
+}
+
+var nonEmptyMemo = map[*types.Func]int{} // 1 in progress (assumed), 2 true, 3 false
+
+func nonEmptyResult(prog *load.Program, fn *types.Func, depth int) bool {
+	switch nonEmptyMemo[fn] {
+	case 1, 2:
+		return true
+	case 3:
+		return false
+	}
+	d := prog.Decl(fn)
+	if d == nil || d.Body == nil {
+		return false
+	}
+	nonEmptyMemo[fn] = 1
+	cb := newBounds(prog, prog.Info(fn.Pkg()), d)
+	ok := cb.nonEmptyReturns(d.Body, depth)
+	if ok {
+		nonEmptyMemo[fn] = 2
+	} else {
+		nonEmptyMemo[fn] = 3
+	}
+	return ok
+}
+
+func (b *bounds) paramNonEmpty(v *types.Var, depth int) bool {
+	// parameter of a function literal bound to a local
+	var lit *ast.FuncLit
+	pi := -1
+	ast.Inspect(b.fd, func(n ast.Node) bool {
+		fl, ok := n.(*ast.FuncLit)
+		if !ok {
+			return true
+		}
+		k := 0
+		for _, f := range fl.Type.Params.List {
+			for _, nm := range f.Names {
+				if b.info.Defs[nm] == v {
+					lit, pi = fl, k
+				}
+				k++
+			}
+		}
+		return true
+	})
+	if lit != nil {
+		var holder types.Object
+		for o, as := range b.assigns {
+			if len(as) == 1 && as[0] != nil && ast.Unparen(as[0]) == ast.Expr(lit) {
+				holder = o
+			}
+		}
+		if holder == nil {
+			return false
+		}
+		calls, good := 0, 0
+		ast.Inspect(b.fd, func(n ast.Node) bool {
+			if call, ok := n.(*ast.CallExpr); ok {
+				if id, ok := ast.Unparen(call.Fun).(*ast.Ident); ok && b.info.ObjectOf(id) == holder && pi < len(call.Args) {
+					calls++
+					if b.nonEmptyString(call.Args[pi], depth) {
+						good++
+					}
+				}
+			}
+			return true
+		})
+		return calls > 0 && calls == good
+	}
+	if b.fd.Type.Params == nil {
+		return false
+	}
+	k := 0
+	for _, f := range b.fd.Type.Params.List {
+		for _, nm := range f.Names {
+			if b.info.Defs[nm] == v {
+				pi = k
+			}
+			k++
+		}
+	}
+	self, _ := b.info.Defs[b.fd.Name].(*types.Func)
+	if pi < 0 || self == nil || self.Exported() {
+		return false
+	}
+	calls := staticCallsOf(b.prog, self)
+	if len(calls) == 0 {
+		return false
+	}
+	for _, cs := range calls {
+		if pi >= len(cs.call.Args) {
+			return false
+		}
+		cb := newBounds(b.prog, cs.info, cs.fd)
+		if !cb.nonEmptyString(cs.call.Args[pi], depth) {
+			return false
+		}
+	}
+	return true
+}
+
+// okGuardedTableLookup: `v, ok := table[k]` is the init statement of an if whose condition is ok, the use
+// sits in that if's body, and table is a package-level map literal whose values are non-empty constants.
+func (b *bounds) okGuardedTableLookup(st *ast.AssignStmt, use *ast.Ident) bool {
+	if len(st.Lhs) != 2 || len(st.Rhs) != 1 {
+		return false
+	}
+	ix, ok := ast.Unparen(st.Rhs[0]).(*ast.IndexExpr)
+	if !ok {
+		return false
+	}
+	okID, isID := ast.Unparen(st.Lhs[1]).(*ast.Ident)
+	if !isID {
+		return false
+	}
+	guarded := false
+	ast.Inspect(b.fd, func(n ast.Node) bool {
+		is, ok := n.(*ast.IfStmt)
+		if !ok || is.Init != ast.Stmt(st) {
+			return true
+		}
+		if cid, ok := ast.Unparen(is.Cond).(*ast.Ident); ok && b.info.ObjectOf(cid) == b.info.ObjectOf(okID) && within(is.Body, use) {
+			guarded = true
+		}
+		return true
+	})
+	if !guarded {
+		return false
+	}
+	tid, isID := ast.Unparen(ix.X).(*ast.Ident)
+	if !isID {
+		return false
+	}
+	tv, _ := b.info.ObjectOf(tid).(*types.Var)
+	if tv == nil || tv.Pkg() == nil || tv.Parent() != tv.Pkg().Scope() {
+		return false
+	}
+	pk := b.prog.ByPath[tv.Pkg().Path()]
+	if pk == nil {
+		return false
+	}
+	okAll, found := true, false
+	for _, f := range pk.Syntax {
+		for _, d := range f.Decls {
+			gd, ok := d.(*ast.GenDecl)
+			if !ok || gd.Tok != token.VAR {
+				continue
+			}
+			for _, sp := range gd.Specs {
+				vs := sp.(*ast.ValueSpec)
+				for i, nm := range vs.Names {
+					if pk.TypesInfo.Defs[nm] != tv || i >= len(vs.Values) {
+						continue
+					}
+					cl, ok := ast.Unparen(vs.Values[i]).(*ast.CompositeLit)
+					if !ok {
+						okAll = false
+						continue
+					}
+					found = true
+					for _, el := range cl.Elts {
+						kv, ok := el.(*ast.KeyValueExpr)
+						if !ok {
+							okAll = false
+							continue
+						}
+						val := pk.TypesInfo.Types[kv.Value]
+						if val.Value == nil || val.Value.Kind() != constant.String || constant.StringVal(val.Value) == "" {
+							okAll = false
+						}
+					}
+				}
+			}
+		}
+	}
+	return found && okAll
 }
